@@ -23,6 +23,7 @@ func main() {
 	manifest := flag.String("manifest", "", "write MANIFEST.json to this path and exit")
 	tags := flag.String("tags", "verif", "build tags used to load /repo (hooks guard)")
 	outDir := flag.String("out", "", "evidence directory (default <verif>/evidence)")
+	writeBase := flag.Bool("write-baseline", false, "record the functions declared in -repo as the baseline (checker/baseline_funcs.txt) and exit")
 	flag.Parse()
 
 	if *manifest != "" {
@@ -47,6 +48,14 @@ func main() {
 	if *verif == "" {
 		exe, _ := os.Executable()
 		*verif = filepath.Dir(filepath.Dir(exe))
+	}
+	verifDirGlobal = *verif
+	if *writeBase {
+		if err := writeBaseline(*repo, *tags, filepath.Join(*verif, "checker", "baseline_funcs.txt")); err != nil {
+			fmt.Fprintln(os.Stderr, err)
+			os.Exit(2)
+		}
+		return
 	}
 	seed := 0
 	if s := os.Getenv("VERIF_SEED"); s != "" {
